@@ -1018,55 +1018,6 @@ func c16Bin(cons, a, b string) string {
 // ---------------------------------------------------------------------------------------------
 // oracle_impl: the property as written, evaluated directly on the database
 
-// Known finding C16-nested-unless-unchecked: getNonFallbackSelectors only looks at the selector of a direct `unless <condition>`
-// operand of a top-level source; joins inside that operand, and `unless <condition>` operands of join sides / nested unless
-// operands are not followed.  Class predicate (independent of pint's analysis): the unreported selector lies inside the
-// right operand of an `unless` whose right operand is a comparison, and that operand contains a second selector or the
-// `unless` is not the outermost operator of the expression.
-const c16KnownNestedUnless = "C16-nested-unless-unchecked"
-
-func c16Unparen(e promParser.Expr) promParser.Expr {
-	for {
-		p, ok := e.(*promParser.ParenExpr)
-		if !ok {
-			return e
-		}
-		e = p.Expr
-	}
-}
-
-func c16InNestedConditionalUnless(root promParser.Node, sel *promParser.VectorSelector) bool {
-	hit := false
-	rootExpr, _ := root.(promParser.Expr)
-	promParser.Inspect(root, func(n promParser.Node, _ []promParser.Node) error {
-		be, ok := n.(*promParser.BinaryExpr)
-		if !ok || be.Op != promParser.LUNLESS {
-			return nil
-		}
-		pr := be.RHS.PositionRange()
-		if !(pr.Start <= sel.PosRange.Start && sel.PosRange.End <= pr.End) {
-			return nil
-		}
-		rhs, ok := c16Unparen(be.RHS).(*promParser.BinaryExpr)
-		if !ok || !rhs.Op.IsComparisonOperator() {
-			return nil
-		}
-		others := 0
-		promParser.Inspect(be.RHS, func(m promParser.Node, _ []promParser.Node) error {
-			if _, ok := m.(*promParser.VectorSelector); ok {
-				others++
-			}
-			return nil
-		})
-		outermost := rootExpr != nil && c16Unparen(rootExpr) == promParser.Expr(be)
-		if others >= 2 || !outermost {
-			hit = true
-		}
-		return nil
-	})
-	return hit
-}
-
 func c16Oracle(c *c16Case, astSels []*promParser.VectorSelector, astRoot promParser.Node) {
 	lb := c16ParseDur(c.LookbackRange)
 	hour := 60 * c16Minute
@@ -1222,9 +1173,6 @@ func c16Oracle(c *c16Case, astSels []*promParser.VectorSelector, astRoot promPar
 		}
 		if !found {
 			c.Fail = fmt.Sprintf("(b) metric of selector %s has no sample in the whole lookback window, no rule produces it and nothing exempts it, but no Bug \"query on nonexistent series\" is reported for it", k)
-			if c16InNestedConditionalUnless(astRoot, s) {
-				c.Known = c16KnownNestedUnless
-			}
 			return
 		}
 	}
